@@ -20,6 +20,10 @@ attempt("gen_hostcosts", lambda: gen_hostcosts.generate(repo, os.path.join(gen, 
 attempt("gen_costs", lambda: gen_costs.generate(repo, gen))
 attempt("gen_cbor_schemas", lambda: gen_cbor_schemas.generate(repo, os.path.join(gen, "CborSchemas.v")))
 attempt("gen_chain_schemas", lambda: gen_chain_schemas.generate(repo, os.path.join(gen, "ChainSchemas.v")))
+def manual_impls():
+    import gen_manual_impls
+    gen_manual_impls.generate(repo, os.path.join(gen, "ManualImpls.v"))
+attempt("gen_manual_impls", manual_impls)
 def txcost():
     from checks import c06_txcost
     src = open(os.path.join(repo, "rust-src/concordium_base/src/transactions.rs")).read()
